@@ -1,9 +1,16 @@
 package main
 
 import (
+	"berty.tech/go-ipfs-log/identityprovider"
+	ipfslogiface "berty.tech/go-ipfs-log/iface"
+	ipfslogio "berty.tech/go-ipfs-log/io"
+	"berty.tech/go-ipfs-log/io/cbor"
 	"context"
 	"encoding/json"
 	"fmt"
+	"github.com/ipfs/go-cid"
+	format "github.com/ipfs/go-ipld-format"
+	coreiface "github.com/ipfs/kubo/core/coreiface"
 	"path/filepath"
 	"sort"
 	"strings"
@@ -84,6 +91,19 @@ func runC05(r *Run) error {
 		canon.Ident.ID(repA.Orbit.Identity().ID)
 		canon.Ident.ID(repB.Orbit.Identity().ID)
 		canon.Ident.ID(repC0.Orbit.Identity().ID)
+		// every fourth history runs on a database opened (by everybody, every time) with a custom
+		// IO option: entries are stored with their payload masked, so only a reader that uses the
+		// database's IO gets entries whose signatures verify
+		customIO := hi%4 == 2
+		withIO := func(o *orbitdb.CreateDBOptions) *orbitdb.CreateDBOptions {
+			if customIO {
+				o.IO = maskIO{ipfslogio.CBOR()}
+			}
+			return o
+		}
+		if customIO {
+			r.Count("history:custom-io")
+		}
 		ac := &accesscontroller.CreateAccessControllerOptions{Access: map[string][]string{"write": {repA.Orbit.Identity().ID, repB.Orbit.Identity().ID, repC0.Orbit.Identity().ID}}}
 		// the bus of store A is observed: the marker "repl" is put into the effect log at the very
 		// position where EventReplicated is emitted ("reported as replicated"), synchronously
@@ -107,17 +127,17 @@ func runC05(r *Run) error {
 				env.AddMarker(idxA, "repl", strings.Join(hs, ","))
 			}
 		}}
-		stA, err := repA.Orbit.Create(ctx, "db-"+label, "keyvalue", &orbitdb.CreateDBOptions{AccessController: ac, EventBus: busA})
+		stA, err := repA.Orbit.Create(ctx, "db-"+label, "keyvalue", withIO(&orbitdb.CreateDBOptions{AccessController: ac, EventBus: busA}))
 		if err != nil {
 			return err
 		}
 		addr := stA.Address().String()
 		canon.LogID.ID(addr)
-		stB, err := repB.Orbit.Open(ctx, addr, &orbitdb.CreateDBOptions{})
+		stB, err := repB.Orbit.Open(ctx, addr, withIO(&orbitdb.CreateDBOptions{}))
 		if err != nil {
 			return err
 		}
-		stC0, err := repC0.Orbit.Open(ctx, addr, &orbitdb.CreateDBOptions{})
+		stC0, err := repC0.Orbit.Open(ctx, addr, withIO(&orbitdb.CreateDBOptions{}))
 		if err != nil {
 			return err
 		}
@@ -160,7 +180,7 @@ func runC05(r *Run) error {
 				if err := stA.Close(); err != nil {
 					return fmt.Errorf("close A: %w", err)
 				}
-				st2, err := repA.Orbit.Open(ctx, addr, &orbitdb.CreateDBOptions{EventBus: busA})
+				st2, err := repA.Orbit.Open(ctx, addr, withIO(&orbitdb.CreateDBOptions{EventBus: busA}))
 				if err != nil {
 					return fmt.Errorf("reopen A: %w", err)
 				}
@@ -332,7 +352,7 @@ func runC05(r *Run) error {
 			outcome := "ok"
 			var listing []ipfslog.Entry
 			view := map[string][]byte{}
-			stC, err := repC.Orbit.Open(ctx, addr, &orbitdb.CreateDBOptions{})
+			stC, err := repC.Orbit.Open(ctx, addr, withIO(&orbitdb.CreateDBOptions{}))
 			if err != nil {
 				outcome = "open-error"
 			} else {
@@ -370,7 +390,7 @@ func runC05(r *Run) error {
 		// the first handle.  Writes on the first handle afterwards may be refused - but one that
 		// IS acknowledged has to be on disk like any other
 		if r.Rng.Intn(3) == 0 {
-			if h2, err := repA.Orbit.Open(ctx, addr, &orbitdb.CreateDBOptions{}); err == nil {
+			if h2, err := repA.Orbit.Open(ctx, addr, withIO(&orbitdb.CreateDBOptions{})); err == nil {
 				_ = h2.Load(ctx, -1)
 				s.Settle()
 				_ = h2.Close()
@@ -403,7 +423,7 @@ func runC05(r *Run) error {
 		if err != nil {
 			return err
 		}
-		stA2, err := repA2.Orbit.Open(ctx, addr, &orbitdb.CreateDBOptions{})
+		stA2, err := repA2.Orbit.Open(ctx, addr, withIO(&orbitdb.CreateDBOptions{}))
 		if err != nil {
 			return err
 		}
@@ -427,6 +447,36 @@ func runC05(r *Run) error {
 		_ = repC0.Orbit.Close()
 	}
 	return nil
+}
+
+// maskIO is a custom IO: the CBOR IO of go-ipfs-log with the payload of every entry masked in
+// the stored block.
+type maskIO struct{ *cbor.IOCbor }
+
+func maskBytes(b []byte) []byte {
+	out := make([]byte, len(b))
+	for i, x := range b {
+		out[i] = x ^ 0x5a
+	}
+	return out
+}
+
+func (m maskIO) Write(ctx context.Context, ipfs coreiface.CoreAPI, obj interface{}, opts *ipfslogiface.WriteOpts) (cid.Cid, error) {
+	if e, ok := obj.(ipfslogiface.IPFSLogEntry); ok {
+		cp := e.Copy()
+		cp.SetPayload(maskBytes(e.GetPayload()))
+		return m.IOCbor.Write(ctx, ipfs, cp, opts)
+	}
+	return m.IOCbor.Write(ctx, ipfs, obj, opts)
+}
+
+func (m maskIO) DecodeRawEntry(node format.Node, hash cid.Cid, p identityprovider.Interface) (ipfslogiface.IPFSLogEntry, error) {
+	e, err := m.IOCbor.DecodeRawEntry(node, hash, p)
+	if err != nil {
+		return nil, err
+	}
+	e.SetPayload(maskBytes(e.GetPayload()))
+	return e, nil
 }
 
 func datastoreKey(k string) datastore.Key { return datastore.NewKey(k) }
